@@ -201,6 +201,8 @@ func callIntrinsic(fr *frame, fn *ssa.Function, args []value) (value, bool) {
 		return true, true
 	case "zzvBodyChildren":
 		return bodyChildren(fr, args[0], fn.Signature.Params().At(0).Type()), true
+	case "zzvSameShape":
+		return x.deepEq(args[0], args[1], map[[2]*value]bool{}, 0), true
 	case "zzvIsSymbolic":
 		return true, true
 	case "zzvStrContains":
